@@ -72,6 +72,15 @@ func (w *World) can(tr string) bool {
 		return w.seed != nil && w.seed.mode != f[1]
 	case "ev", "drain":
 		return len(w.t.Event) > 0
+	case "gate", "ungate", "pstep":
+		if !w.cfg.Gates || ai(1) >= len(w.remotes) {
+			return false
+		}
+		g := w.remotes[ai(1)]
+		if f[0] == "gate" {
+			return !g.gated && !g.exited()
+		}
+		return g.gated && !g.exited()
 	case "unwant":
 		return w.consumers[fmt.Sprintf("%d/%d", ai(1), ai(2))] > 0
 	case "evict":
@@ -141,6 +150,9 @@ func runWorld(t *testing.T, spec *bfsSpec, hist []string, verbose bool) (out run
 		}
 		out.valid = true
 		for _, tr := range spec.Setup {
+			if tr == "drain" && len(w.t.Event) == 0 {
+				continue // nothing to deliver at this point of the setup
+			}
 			if !w.apply(tr) {
 				panic(fmt.Sprintf("spec %s: setup transition %s not applicable", spec.Name, tr))
 			}
